@@ -643,6 +643,9 @@ class Node:
         if isinstance(child, self._tree.__class__):
             if deep is None:
                 deep = True
+            if deep and child is self._tree:
+                # The copies would become part of the branches that are being copied
+                raise ValueError(f"Cannot deep-copy {child} below itself: {self}")
             # Work on a copy: never modify the child list of the source tree
             topnodes = list(child._root.children)
             # Check the unique constraint for all nodes before adding the first
@@ -668,6 +671,11 @@ class Node:
             if deep and (data_id is not None or node_id is not None):
                 raise ValueError("Cannot set ID for deep copies.")
             source_node = child
+            if deep and (self is source_node or self.is_descendant_of(source_node)):
+                # The copy would become part of the branch that is being copied
+                raise ValueError(
+                    f"Cannot deep-copy {source_node} below itself: {self}"
+                )
             if source_node._tree is self._tree:
                 if source_node._parent is self:
                     raise UniqueConstraintError(
@@ -960,13 +968,18 @@ class Node:
         assert before is None
         if not self._children:
             raise ValueError("Need child nodes when `add_self=False`")
-        # Check the unique constraint for all nodes before adding the first
+        # Check all nodes before adding the first
         target_ids = {n._data_id for n in target.children}
+        target_node = target if isinstance(target, Node) else target._root
         for child in self._children:
             if child._data_id in target_ids:
                 raise UniqueConstraintError(
                     f"Node.data already exists in parent: {child}"
                 )
+            if deep and (
+                target_node is child or target_node.is_descendant_of(child)
+            ):
+                raise ValueError(f"Cannot deep-copy {child} below itself: {target}")
         res = None
         for child in self.children:
             n = target.add_child(child, before=None, deep=deep)
